@@ -11,7 +11,8 @@ RULE = ('single rules from the AST generator (literal and wildcard segments, int
         'wildcards, anonymous filtered wildcards passed positionally, every syntax flavour) x parameter assignments obtained by '
         'resolving instantiated and mutated paths (digit strings with leading zeros, signs, long and fractional floats, empty '
         'captures, non-ASCII, CR). Non-trivial = the rule has at least one wildcard and the path matched; distinct = distinct (rule text, path).')
-REQUIRED = ['roundtrips', 'with_int', 'with_float', 'with_re', 'with_path', 'with_anonymous_positional', 'adjacent_wildcards',
+PYOPT = {'quick': 1, 'thorough': 1}     # one unit of every kind is also served by an interpreter started with -O (assert statements compiled out)
+REQUIRED = ['units_run_under_python_-O', 'roundtrips', 'with_int', 'with_float', 'with_re', 'with_path', 'with_anonymous_positional', 'adjacent_wildcards',
             'path_followed_by_literal', 'float_needing_positional_notation', 'literals_checked', 'static_rules']
 ASSUMPTIONS = ['parameters are exactly those produced by matching (the statement); float digit strings are at most 30 characters',
                'excluded: a number not in canonical spelling that follows a path/re wildcard in the rule (re-spelling it can move the earlier open-ended match; no builder can prevent that), and a negative zero directly after another wildcard',
